@@ -166,8 +166,27 @@ def shared_document(kind, coords, units, gt, shapes, ta, tb, wrap):
     return f'<svg {NS} viewBox="0 0 110 95"><defs><{tag} id="g"{attrs}>{STOPS}</{tag}></defs>{a}{b}</svg>'
 
 
-def judge(doc, tier, seed):
-    o, out = RC.convert(doc)
+def tiny_document(kind, gt, chain, m):
+    """the same kind of picture drawn in a user space of size ~0.02: gradient vectors of length ~0.015, gradientTransform
+    translations at and below 1e-4 (they are NOT negligible here)"""
+    f = lambda v: f"{v * m:.10g}"
+    tag = "linearGradient" if kind == "linear" else "radialGradient"
+    if kind == "linear":
+        attrs = f' x1="{f(15)}" y1="{f(20)}" x2="{f(80)}" y2="{f(60)}"'
+    else:
+        attrs = f' cx="{f(45)}" cy="{f(50)}" r="{f(38)}" fx="{f(38)}" fy="{f(46)}"'
+    g = {"t1": "translate(0.0001,-0.00008)", "t2": "translate(0.00005 0.0001)", "m": "matrix(1 0 0 1 -0.0001 0.0001)", "rt": "rotate(20) translate(0.0001,0.00003)", "none": None}[gt]
+    if g:
+        attrs += f' gradientTransform="{g}"'
+    st = {"none": "", "translate": f' transform="translate({f(6)},{f(-4)})"', "rotscale": ' transform="rotate(20) scale(1.2,.8)"'}[chain]
+    return (
+        f'<svg {NS} viewBox="0 0 {f(110)} {f(95)}"><defs><{tag} id="g" gradientUnits="userSpaceOnUse"{attrs}>{STOPS}</{tag}></defs>'
+        f'<rect x="{f(20)}" y="{f(25)}" width="{f(50)}" height="{f(40)}" fill="url(#g)"{st}/></svg>'
+    )
+
+
+def judge(doc, tier, seed, convert_kw=None):
+    o, out = RC.convert(doc, **(convert_kw or {}))
     if o != "returned":
         return o, f"conversion of a supported gradient document failed: {out}", "raised", None, {}, out
     try:
@@ -196,7 +215,7 @@ def judge(doc, tier, seed):
         if worst is None or (res[3] or 0) > (worst[3] or 0):
             worst = res
     o, why, kind, span, stats, out = worst
-    bad = R4.validate(out, require_stops=True)
+    bad = R4.validate(out, ndigits=(convert_kw or {}).get("ndigits", 3), require_stops=True)
     if bad:
         return o, "output gradient not self-contained / grammar: " + "; ".join(bad)[:300], "grammar", span, stats, out
     return o, None, None, span, stats, out
@@ -241,9 +260,27 @@ def _judge_leaf(o, out, ls, lo, cs, co, pts, stats):
     return o, None, None, span, stats, out
 
 
+def evaluate_tiny(case):
+    k = case["k"]
+    doc = tiny_document(*k)
+    o, why, kind, span, st, out = judge(doc, case["tier"], case["seed"], {"ndigits": 8})
+    nt = doc if (span is not None and span >= 0.3 and st.get("compared", 0) >= 30) else None
+    rec = {"out": "tiny/" + o, "nt": nt, "viol": [], "cnt": {"compared_points": st.get("compared", 0)}}
+    if why:
+        rec["viol"].append({"sig": {"kind": kind, "fam": "tiny", "gkind": k[0], "gt": k[1]}, "case": {"fam": "t", "k": k, "doc": doc}, "detail": {"why": why, "output": out[:2500], "stats": st}})
+    return rec
+
+
+def tiny_cases(tier):
+    for kind, gt, chain, m in itertools.product(["linear", "radial"], ["t1", "t2", "m", "rt", "none"], ["none", "translate", "rotscale"], [2e-4, 1e-3] if tier == "quick" else [1e-4, 2e-4, 5e-4, 1e-3, 1e-2]):
+        yield (kind, gt, chain, m)
+
+
 def evaluate(case):
     if case.get("fam") == "s":
         return evaluate_shared(case)
+    if case.get("fam") == "t":
+        return evaluate_tiny(case)
     doc = document(*case["k"])
     o, why, kind, span, st, out = judge(doc, case["tier"], case["seed"])
     nt = doc if (span is not None and span >= 0.3 and st.get("compared", 0) >= 30) else None
@@ -313,6 +350,8 @@ def cases(tier, seed):
         yield {"k": list(k), "tier": tier, "seed": seed}
     for k in shared_cases(tier):
         yield {"fam": "s", "k": list(k), "tier": tier, "seed": seed}
+    for k in tiny_cases(tier):
+        yield {"fam": "t", "k": list(k), "tier": tier, "seed": seed}
 
 
 def run(run):
@@ -320,7 +359,7 @@ def run(run):
         "E2 + R3 gradient evaluator: kind {linear, radial} x coordinates {defaults, numbers, percentages} x gradientUnits 2 x gradientTransform {none, translate, scale.translate, rotate, matrix} "
         "x spreadMethod x href {none, template supplies attributes, template supplies stops, chain of two} x radial focus {none, fx, fx+fy, fr, percentages} x shape {rect, circle, path} x "
         "shape transform chain {none, translate, rotate.scale, group translate + own matrix, mirror, flip.scale} (quick: reduced spread/href/focus/shape alphabets); ONE gradient shared by two shapes "
-        "(3 shape pairs incl. coincident geometry) x own transforms {none, translate, scale, rotate, matrix, mirror}^2 x {no group, group around the second, group around both, second shape a <use> of the first}. Oracle: at every lattice point strictly inside "
+        "(3 shape pairs incl. coincident geometry); the picture in a user space of size 0.02-1 (conversion with ndigits=8) with gradientTransform translations at / below 1e-4; ONE gradient shared: (3 shape pairs incl. coincident geometry) x own transforms {none, translate, scale, rotate, matrix, mirror}^2 x {no group, group around the second, group around both, second shape a <use> of the first}. Oracle: at every lattice point strictly inside "
         "the shape in both renderings the raw gradient parameter agrees within 1e-3 and the colour within 2.5/255; output gradients self-contained (R4 with own stops). "
         "Non-trivial = compared points span >= 0.3 of the gradient parameter range and >= 30 points compared."
     )
@@ -332,7 +371,7 @@ def run(run):
 
 def replay(case):
     doc = case.get("doc") or (shared_document(*case["k"]) if case.get("fam") == "s" else document(*case["k"]))
-    o, why, kind, span, st, out = judge(doc, "quick", 0)
+    o, why, kind, span, st, out = judge(doc, "quick", 0, {"ndigits": 8} if case.get("fam") == "t" else None)
     if why:
         return [{"sig": {"kind": kind}, "case": case, "detail": {"why": why, "output": out[:2500]}}]
     return []
